@@ -507,6 +507,15 @@ func RunC14(r *core.Rng, run, seed uint64, tier string, cov *Cov) []*Violation {
 		}
 		tree, files = genTreeEnv(r, fmt.Sprintf("%s/verif-tree/c14/%d/%d", base, seed, run))
 		cov.Probe("tree-mode(GuessPaths+AnalyzeSources)")
+		if r.Chance(0.3) {
+			// roots written with a trailing separator, as they come out of
+			// environment variables and configuration files
+			tree.GOROOT += "/"
+			for i := range tree.GOPATHs {
+				tree.GOPATHs[i] += "/"
+			}
+			cov.Probe("opts:roots-with-trailing-separator")
+		}
 	}
 	guessUnset := tree == nil && r.Chance(0.25)
 	if guessUnset {
